@@ -693,8 +693,14 @@ pub fn block_on<T: 'static>(future: impl Future<Output = T>) -> T {
                 break result.unwrap();
             }
             CallbackCode::Yield => {
+                // A task may yield before it has registered any waitable, in
+                // which case no waitable set exists yet and there's nothing
+                // to poll.
                 let set = state.shared.waitable_set.try_lock().unwrap();
-                event = set.as_ref().unwrap().poll()
+                event = match set.as_ref() {
+                    Some(set) => set.poll(),
+                    None => (EVENT_NONE, 0, 0),
+                };
             }
             CallbackCode::Wait(_) => {
                 let set = state.shared.waitable_set.try_lock().unwrap();
